@@ -331,6 +331,32 @@ def cp(args):
     return out
 
 
+def ik_path_wanders(ref, fn, args):
+    """The Newton-Raphson iteration of the Modern Robotics IK, re-run with the reference library's own primitives, to see
+    whether it stays in the neighbourhood of its start: an iterate more than a radian away, or a Jacobian that is nearly
+    singular on the way (sigma_min < 1e-2 sigma_max), amplifies float noise until port and reference part ways - such a
+    solve says nothing about their agreement (thorough tier: 1 of 48 000 solves differed by 3e-5 that way)."""
+    lst, M, T, th0, eomg, ev = [np.array(a, dtype=float) if isinstance(a, np.ndarray) else a for a in args[:6]]
+    th = np.array(th0, dtype=float).copy()
+    for _ in range(20):
+        if fn == "IKinBody":
+            V = ref.se3ToVec(ref.MatrixLog6(ref.TransInv(ref.FKinBody(M, lst, th)) @ T))
+            J = ref.JacobianBody(lst, th)
+        else:
+            Tsb = ref.FKinSpace(M, lst, th)
+            V = ref.Adjoint(Tsb) @ ref.se3ToVec(ref.MatrixLog6(ref.TransInv(Tsb) @ T))
+            J = ref.JacobianSpace(lst, th)
+        if np.linalg.norm(V[:3]) <= eomg and np.linalg.norm(V[3:]) <= ev:
+            return False
+        sv = np.linalg.svd(J, compute_uv=False)
+        if sv[min(J.shape) - 1] < 1e-2 * sv[0]:
+            return True
+        th = th + np.linalg.pinv(J) @ V
+        if float(np.abs(th - th0).max()) > 1.0 or not np.all(np.isfinite(th)):
+            return True
+    return False
+
+
 def diff_job(job):
     fn, seed, count = job
     port, ref = libs()
@@ -363,7 +389,8 @@ def diff_job(job):
             # Newton-Raphson that leaves the neighbourhood of its start (joint values running off by more than a radian) is
             # chaotic: float noise decides where port and reference end up, and neither the flags nor the solutions are
             # comparable then (seed 1 of the quick tier: a 6-joint chain wandering to |theta| ~ 60); the tolerance clauses stay
-            wandered = max(float(np.abs(np.asarray(th_p) - args[3]).max()), float(np.abs(np.asarray(th_r) - args[3]).max())) > 1.0
+            wandered = max(float(np.abs(np.asarray(th_p) - args[3]).max()), float(np.abs(np.asarray(th_r) - args[3]).max())) > 1.0 \
+                or ik_path_wanders(ref, fn, args)
             if not wandered:
                 ev.append((fn + ": same success flag as the reference", cls, 0.0 if bool(ok_p) == bool(ok_r) else float("inf"), 1.0, case))
             if ok_p:
